@@ -116,28 +116,33 @@ def fns():
 
 
 def _probe_optional_dependency(cl):
-    """gca_const_lat_intersection on its default path (fma_disabled=True) on an arc that crosses the parallel.  If it
-    fails only because the *optional* package pyfma (extra "math" in pyproject.toml) is absent, that is reported once
-    as a verdict by the check, and an exact fused-multiply-add stand-in is installed so that everything else can still
-    be judged.  Returns the error text or None."""
+    """Does the default path still need the *optional* package pyfma (extra "math" in pyproject.toml)?
+
+    `uxarray.utils.computing._fmms` is called directly, then gca_const_lat_intersection (fma_disabled=True) on an arc
+    that crosses the parallel.  Only if one of them raises ModuleNotFoundError for pyfma is an exact fused-multiply-add
+    stand-in installed (so that everything else can still be judged); the check then reports the clause "Raises/pyfma",
+    which no known finding suppresses.  Returns the error text or None."""
     import sys
 
     import numpy as np
+    from uxarray.utils.computing import _fmms
 
-    gca = np.array([XC.unit([1, 0, 0]), XC.unit([0, 1, 1])])
+    err = None
     try:
-        cl(gca, 0.5)
-        return None
+        _fmms(3.0, 2.0, 1.0, 1.0)
+        cl(np.array([XC.unit([1, 0, 0]), XC.unit([0, 1, 1])]), 0.5)
     except ModuleNotFoundError as e:
         if "pyfma" not in str(e):
             raise
+        err = "%s: %s" % (type(e).__name__, e)
+    if err is not None and "pyfma" not in sys.modules:
         import types
         from fractions import Fraction
 
         shim = types.ModuleType("pyfma")
         shim.fma = lambda a, b, c: float(Fraction(float(a)) * Fraction(float(b)) + Fraction(float(c)))  # one rounding
         sys.modules["pyfma"] = shim
-        return "%s: %s" % (type(e).__name__, e)
+    return err
 
 
 def warm_up():
